@@ -2074,6 +2074,29 @@ pub fn f10() -> Fragment {
         Stmt::Res(rel(uri_lit(&["root"]), vec![ok.clone()])),
         Stmt::Res(rel(uri_lit(&[""]), vec![ok.clone()])),
     ]));
+    // operations of one method on long paths that share their first 64 (and 128) characters:
+    // the synthesized operation ids stay distinct
+    {
+        let v = |n: &str| Seg::Var(Box::new(prop(n, str_())));
+        let l = |n: &str| Seg::Lit(n.into());
+        let base = || vec![l("organizations"), v("organization"), l("projects"), v("project"), l("environments"), v("environment"), l("deployments")];
+        let ok = || xfer(Method::Get, E::Content(vec![], None));
+        let mut p1 = base();
+        p1.push(v("deployment"));
+        let mut p2 = p1.clone();
+        p2.push(l("logs"));
+        let mut p3 = p2.clone();
+        p3.extend([l("a-very-long-literal-segment-that-pushes-the-label-well-beyond-one-hundred-and-twenty-eight-characters"), v("line")]);
+        let mut p4 = p3.clone();
+        p4.push(l("raw"));
+        programs.push(single(vec![
+            Stmt::Res(rel(E::Uri(base(), None), vec![ok()])),
+            Stmt::Res(rel(E::Uri(p1, None), vec![ok()])),
+            Stmt::Res(rel(E::Uri(p2, None), vec![ok()])),
+            Stmt::Res(rel(E::Uri(p3, None), vec![ok()])),
+            Stmt::Res(rel(E::Uri(p4, None), vec![ok()])),
+        ]));
+    }
     // two name errors in one program: a declaration written twice and a use of an undefined
     // name (which one is reported must not depend on the order of the statements)
     programs.push(single(vec![
